@@ -188,6 +188,8 @@ pub enum Inject {
   Hidden { g: ResId, writer: TaskId, reader: TaskId },
   Overlap { g: ResId, w1: TaskId, w2: TaskId },
   Cycle { from: TaskId, to: TaskId, guarded: bool },
+  /// One violation of the given kind that exists only while source `src` has particular values (C19 diag, C20 guarded).
+  Guarded { kind: String, src: ResId },
 }
 
 #[derive(Serialize, Deserialize, Clone, Debug, PartialEq, Eq, Hash, Default)]
